@@ -1959,6 +1959,9 @@ impl Context {
         if len == 0 {
             return (Arc::new(Value::None), unit!(), vec![]);
         }
+        // The aggregate is allocated where its evaluation starts; an element that branches
+        // (`if`, `match`) moves on to other basic blocks before the elements are stored.
+        let alloc_block = self.get_ctxdata().current_bb;
         let alloc_insert_point = self.get_current_basicblock().0.len();
         let dst = self.gen_new_register();
         let mut states = vec![];
@@ -1972,7 +1975,7 @@ impl Context {
             states.extend(s);
             self.push_inst(Instruction::Store(ptr, v, elem_ty));
         }
-        self.get_current_basicblock().0.insert(
+        self.get_current_fn().body[alloc_block].0.insert(
             alloc_insert_point,
             (dst.clone(), Instruction::Alloc(alloc_ty)),
         );
